@@ -408,4 +408,59 @@ theorem upperIdx_cover (G : List (List Rat))
     rw [Nat.add_comm, cover_getD_hi G d hd', (hup d hd').2]; simp
   rw [h1, h2, List.append_nil]
 
+/-! ### soundness of the executable hypothesis validators -/
+
+theorem sep_of_sepB {grid : List (List Rat)} (h : sepB grid = true) : Sep grid := by
+  intro a b hba ha
+  unfold sepB at h
+  rw [List.all_eq_true] at h
+  have h1 := h a (List.mem_range.mpr ha)
+  rw [List.all_eq_true] at h1
+  have h2 := h1 b (List.mem_range.mpr hba)
+  simpa using h2
+
+theorem hup_of_hupB {G : List (List Rat)} (h : hupB G = true) :
+    ∀ d, d < G.length → qInUpper (G.getD d []) = true ∧ qInUpper (negRow (G.getD d [])) = false := by
+  intro d hd
+  unfold hupB at h
+  rw [List.all_eq_true] at h
+  have := h d (List.mem_range.mpr hd)
+  simpa using this
+
+theorem entQ_eq_ent (A : List (List Rat)) (i j : Nat) : entQ A i j = ent A 0 i j := rfl
+
+theorem square_of_squareB {n : Nat} {A : List (List Rat)} (h : squareB n A = true) : Square n A := by
+  unfold squareB at h
+  rw [Bool.and_eq_true, List.all_eq_true] at h
+  refine ⟨by simpa using h.1, ?_⟩
+  intro row hrow
+  simpa using h.2 row hrow
+
+theorem sym_of_symB {n : Nat} {A : List (List Rat)} (h : symB n A = true) :
+    ∀ a b, a < n → b < n → ent A 0 a b = ent A 0 b a := by
+  intro a b ha hb
+  unfold symB at h
+  rw [List.all_eq_true] at h
+  have h1 := h a (List.mem_range.mpr ha)
+  rw [List.all_eq_true] at h1
+  have h2 := h1 b (List.mem_range.mpr hb)
+  simpa [entQ_eq_ent] using of_decide_eq_true h2
+
+theorem anti_of_antiB {N : Nat} {A : List (List Rat)} (h : antiB N A = true) :
+    ∀ a b, a < 2 * N → b < 2 * N → ent A 0 (oppIdx N a) (oppIdx N b) = ent A 0 a b := by
+  intro a b ha hb
+  unfold antiB at h
+  rw [List.all_eq_true] at h
+  have h1 := h a (List.mem_range.mpr ha)
+  rw [List.all_eq_true] at h1
+  have h2 := h1 b (List.mem_range.mpr hb)
+  simpa [entQ_eq_ent, oppIdx] using of_decide_eq_true h2
+
+theorem cover_of_coverB {grid : List (List Rat)} (h : coverB grid = true) :
+    grid = cover (grid.take (grid.length / 2)) := by
+  unfold coverB at h
+  simp only [Bool.and_eq_true, decide_eq_true_eq] at h
+  unfold cover
+  rw [← h.2, List.take_append_drop]
+
 end Molgri.HalfFold
